@@ -287,7 +287,12 @@ def jobs_for(tier, seed):
 
 def _opt_jobs(tier, seed):
     """the jobs repeated in an interpreter started with -O (assert statements are stripped): one shape per class"""
-    return [j for j in jobs_for(tier, seed) if j[2] == "class" and not j[3]][:: (2 if tier == "quick" else 1)][:5 if tier == "quick" else 15]
+    out, seen = [], {}
+    for j in jobs_for(tier, seed):
+        if j[2] == "class" and not j[3] and seen.get(j[0], 0) < (1 if tier == "quick" else 3):
+            seen[j[0]] = seen.get(j[0], 0) + 1
+            out.append(j)
+    return out
 
 
 def run(tier, seed, rec):
